@@ -56,6 +56,8 @@ class World:
         self.server_hooks_enabled = server_hooks_enabled
         self.started = False
         self.torn_down = False
+        self._source, self._post = None, []
+        self.zombies = set()      # connections whose connect failed: stay in server.py's `transports` for good
 
     # ---- labels -------------------------------------------------------------------------------
     def label(self, conn):
@@ -90,6 +92,8 @@ class World:
             if kind == "event":
                 self._handle(x)
             elif kind == "hook":
+                self.hooks.append((x.name, x))
+                self.trace.append(("hook", x.name, x))
                 r = self.on_hook(self, x)
                 if r == "defer":
                     self.deferred_hooks.append(x)
@@ -128,24 +132,44 @@ class World:
         self.drain()
 
     def _handle(self, event):
+        # which connection's handler task is delivering this event (server.py: the task that awaits server_event)
+        if isinstance(event, (events.DataReceived, events.ConnectionClosed)):
+            self._source = event.connection
+        elif isinstance(event, events.OpenConnectionCompleted):
+            self._source = event.command.connection
+        else:
+            self._source = None
+        self._post = []
         try:
-            cmds = list(self.layer.handle_event(event))
-        except Exception as e:  # server.py: "mitmproxy has crashed!" — recorded, checks decide what it means
+            # lazily, like `for command in layer_commands:` in server_event — an exception (from the layer or from
+            # one of server.py's own assertions) abandons the rest of the batch: "mitmproxy has crashed!"
+            for c in self.layer.handle_event(event):
+                self._command(c)
+        except Exception as e:
             import traceback
             self.errors.append((type(e).__name__, str(e), traceback.format_exc()))
-            return
-        for c in cmds:
-            self._command(c)
+        # a handler cancelled from within its own server_event notices it at its next suspension, i.e. after
+        # every task created during this server_event has been queued
+        self.queue.extend(self._post)
+        self._post = []
+        self._source = None
 
     def _command(self, c):
         if isinstance(c, commands.OpenConnection):
-            assert c.connection not in self.transports
+            # server.py: `assert command.connection not in self.transports`; a connection whose connect attempt failed
+            # is never removed from `transports` there (zombie entry without reader/writer)
+            assert c.connection not in self.transports and c.connection not in self.zombies, \
+                "server.py: OpenConnection for a connection that is still in transports"
             self.label(c.connection)
             self.open_cmds.append(c)
             self.trace.append(("open", self.label(c.connection)))
             self.queue.append(("open", c))
         elif isinstance(c, commands.RequestWakeup):
             self.wakeups.append(c)
+        elif isinstance(c, commands.ConnectionCommand) and c.connection in self.zombies:
+            if isinstance(c, commands.SendData):
+                raise AssertionError("server.py: SendData to a transports entry without writer (failed connect)")
+            self.trace.append(("ignored", type(c).__name__, self.label(c.connection)))
         elif isinstance(c, commands.ConnectionCommand) and c.connection not in self.transports:
             self.trace.append(("ignored", type(c).__name__, self.label(c.connection)))
         elif isinstance(c, commands.SendData):
@@ -158,12 +182,9 @@ class World:
         elif isinstance(c, commands.CloseConnection):
             self._close(c.connection, False)
         elif isinstance(c, commands.StartHook):
-            self.hooks.append((c.name, c))
-            self.trace.append(("hook", c.name, c))
-            if c.blocking:
-                self.queue.append(("hook", c))
-            else:
-                self.queue.append(("hook", c))
+            # server.py creates one task per hook; it runs (FIFO) after the current server_event returned.
+            # The hook is recorded when it is *executed* (see drain), as an addon would observe it.
+            self.queue.append(("hook", c))
         elif isinstance(c, commands.Log):
             self.trace.append(("log", c.level, c.message))
         else:
@@ -184,7 +205,8 @@ class World:
         if conn.state is ConnectionState.CLOSED:
             # handler.cancel("closed by command"): a handler still in its read loop delivers ConnectionClosed
             # before it exits; one that already saw the peer's EOF (waiting for our close) just exits.
-            self.queue.append(("closed_by_command" if had_read else "closed_quietly", conn))
+            entry = ("closed_by_command" if had_read else "closed_quietly", conn)
+            (self._post if conn is self._source else self.queue).append(entry)
 
     def _server_hook(self, hook):
         self.hooks.append((hook.name, hook))
@@ -195,11 +217,13 @@ class World:
     def _open(self, cmd):
         conn = cmd.connection
         if not conn.address:
+            self.zombies.add(conn)
             self._handle(events.OpenConnectionCompleted(cmd, "Cannot open connection, no hostname given."))
             return
         data = server_hooks.ServerConnectionHookData(client=self.ctx.client, server=conn)
         self._server_hook(server_hooks.ServerConnectHook(data))
         if conn.error:
+            self.zombies.add(conn)
             self._server_hook(server_hooks.ServerConnectErrorHook(data))
             self._handle(events.OpenConnectionCompleted(cmd, f"Connection killed: {conn.error}"))
             return
@@ -214,6 +238,7 @@ class World:
         if cmd in self.deferred_connects: self.deferred_connects.remove(cmd)
         if err:
             conn.error = err
+            self.zombies.add(conn)
             self._server_hook(server_hooks.ServerConnectErrorHook(data))
             self._handle(events.OpenConnectionCompleted(cmd, err))
         else:
@@ -248,10 +273,12 @@ class World:
             conn.state &= ~ConnectionState.CAN_READ
         else:
             conn.state = ConnectionState.CLOSED
-        self.deliver(events.ConnectionClosed(conn))
+        # handle_connection: `await server_event(ConnectionClosed)`; if nothing can be written any more the
+        # handler task ends right away (server_disconnected fires before the hook tasks created by that event run)
+        self._handle(events.ConnectionClosed(conn))
         if conn.state is not ConnectionState.CAN_WRITE:
             self._discard(conn)
-            self.drain()
+        self.drain()
         return True
 
     def wakeup(self, i=0):
